@@ -320,6 +320,14 @@ func vfC17Eligibility(env *vfc.Env, id string, r *ref.Rand, a *vfC17Args) {
 	}
 }
 
+// vfWebCancel sends "cancel=true" for bucket 0 through the admin web handler.
+func vfWebCancel(hs *store.HStore) {
+	old := storage
+	storage = &Storage{hstore: hs}
+	defer func() { storage = old }()
+	handleGC(httptest.NewRecorder(), httptest.NewRequest("GET", "/gc/0?cancel=true", nil))
+}
+
 // vfWebGC issues the request through the admin web handler (gobeansdb/web.go handleGC)
 // and reads the resolved range / the refusal from its reply.
 func vfWebGC(hs *store.HStore, r *ref.Rand, argS, argE, days int, merge, pretend bool) (b, e int, err error) {
@@ -495,7 +503,24 @@ func vfC17Schedule(env *vfc.Env, id string, r *ref.Rand, kind string) {
 		k := r.Range(2, 5)
 		for i := 0; i < k; i++ {
 			var e error
-			switch r.Intn(4) {
+			switch r.Intn(6) {
+			case 4, 5:
+				// a cancel request (through the admin handler or directly): the pass is still in
+				// progress until it reaches its next file boundary - it is parked before it - so
+				// the bucket must go on being reported as collecting and refuse further requests
+				if r.Bool() {
+					vfWebCancel(sut.hs)
+				} else {
+					sut.hs.CancelGC(0)
+				}
+				res.Event("cancel_requests_while_pass_parked", 1)
+				e = fmt.Errorf("cancel")
+				_, _, e2 := sut.hs.GC(0, 0, -1, 0, false, false)
+				if e2 == nil {
+					accepted++
+				} else {
+					refused++
+				}
 			case 0:
 				_, _, e = sut.hs.GC(0, 0, -1, 0, false, true) // pretend
 			case 1:
